@@ -178,8 +178,7 @@ def solve_main(objfun, x0, argsf, xl, xu, projections, npt, rhobeg, rhoend, maxf
         for i in range(1, number_of_samples):  # skip first eval - already did this
             if nf >= maxfun:
                 exit_info = ExitInformation(EXIT_MAXFUN_WARNING, "Objective has been called MAXFUN times")
-                nruns_so_far += 1
-                break  # stop evaluating at x0
+                break  # stop evaluating at x0 (nruns is incremented once, on return)
 
             nf += 1
             # Don't increment nx for x0 - we did this earlier
